@@ -13,6 +13,13 @@ from typing import Optional, Iterator, Iterable, Callable
 
 from transforge.label import Labels
 
+# Verification hook, active only when TRANSFORGE_VERIF=1 is set in the
+# environment: a harness may install a callable that fixes the order in which
+# a variable's pending constraints are re-checked (a Python set has none).
+import os as _os
+_VERIF = _os.environ.get("TRANSFORGE_VERIF") == "1"
+_verif_order = None
+
 
 class Direction(Enum):
     UP = auto()
@@ -787,7 +794,18 @@ class TypeVariable(TypeInstance):
         self._constraints: set[Constraint] = set()
         self.origin = origin
 
+    def _verif_check_constraints(self) -> None:
+        # same loop as check_constraints, over the order the harness imposes
+        for c in _verif_order(list(self._constraints)):
+            if c.fulfill():
+                try:
+                    self._constraints.remove(c)
+                except KeyError:
+                    pass
+
     def check_constraints(self) -> None:
+        if _VERIF and _verif_order is not None:
+            return self._verif_check_constraints()
         for c in list(self._constraints):
             if c.fulfill():
                 try:
